@@ -220,7 +220,7 @@ def check(cx):
                  floor=2)
     for callee, allowed in ((K.WAL + "::push", {K.PUSH_TO_LOG}),
                             (K.WAL + "::perform_flush", {K.WAL_FLUSH})):
-        cs = K.callers_of(p, callee)
+        cs = K.callers_of(p, callee, allowed)
         if not cs:
             cx.bad(r7, "no-caller:" + callee, "", "%s has no caller" % callee)
         for c in cs:
